@@ -15,6 +15,7 @@
 -/
 import Pycel.Lemmas.Trim
 import Pycel.Lemmas.EngineInst
+import Pycel.Model.TrimInst
 namespace Pycel.Trim
 open Pycel.Engine
 
@@ -383,6 +384,40 @@ theorem C08_preserves_inst (specs : List Spec) (hwf : wfCheck specs = true) {I O
     denote (cutAt t.wb C) (sem specs) (override t.st.inp C v) o =
       denote (cutAt (mkWb specs) C) (sem specs) (override s.inp C v) o :=
   C08_preserves (wf_of_check specs hwf) (sem_local specs) hr h C hC v o ho
+
+open Pycel.TrimInst in
+/- the driver extends that language by four one-precedent formulas with a constant (Model/TrimInst.lean: `/c`, `>c`,
+   `=c`, `IF(>c)`) for the float-valued workbooks; the extended semantics still reads only declared precedents, so
+   every theorem above applies to exactly what the driver runs. -/
+theorem semOv_local (specs : List Spec) (ov : Nat → Option Ov) : Local (mkWb specs) (semOv specs ov) := by
+  intro i e e' h
+  have hbase := sem_local specs i e e' h
+  unfold semOv
+  cases hov : ov i with
+  | none => exact hbase
+  | some k =>
+    cases hs : specs[i]? with
+    | none => exact hbase
+    | some sp =>
+      cases sp with
+      | inp v => exact hbase
+      | rng rows => exact hbase
+      | fml fm =>
+        cases fm with
+        | ref j =>
+          have : e j = e' j := h j (by simp [mkWb, hs, Spec.deps, Fml.refs])
+          simp only [this]
+        | _ => exact hbase
+
+open Pycel.TrimInst in
+theorem C08_preserves_drv (specs : List Spec) (ov : Nat → Option Ov) (hwf : wfCheck specs = true) {I O : List Nat}
+    {s : State EV} {t : Trimmed EV} (hr : Ready (mkWb specs) (semOv specs ov) s)
+    (h : trim (mkWb specs) (semOv specs ov) I O s = .ok t)
+    (C : Nat → Bool) (hC : ∀ k, C k = true → inputCells (mkWb specs) I k = true) (v : Nat → EV)
+    (o : Nat) (ho : o ∈ O) :
+    denote (cutAt t.wb C) (semOv specs ov) (override t.st.inp C v) o =
+      denote (cutAt (mkWb specs) C) (semOv specs ov) (override s.inp C v) o :=
+  C08_preserves (wf_of_check specs hwf) (semOv_local specs ov) hr h C hC v o ho
 
 /-- what the trimmed model returns for node `o` (none = the trim raised) -/
 def trimmedValue (r : Except TrimErr (Trimmed EV)) (o : Nat) : Option EV :=
